@@ -698,3 +698,45 @@ func PathAvoiding(from *ssa.BasicBlock, must []ssa.Instruction, to ssa.Instructi
 	}
 	return false
 }
+
+// MustCallSites lists the instructions of fn that are a call matching `match`, or a call to a
+// repository helper every normal return of which is preceded (on all paths) by such a call -
+// the points which, once passed, guarantee that the matched callee has run.
+func MustCallSites(fn *ssa.Function, match func(string) bool) []ssa.Instruction {
+	return mustCallSites(fn, match, map[*ssa.Function]bool{})
+}
+
+func mustCallSites(fn *ssa.Function, match func(string) bool, busy map[*ssa.Function]bool) []ssa.Instruction {
+	var out []ssa.Instruction
+	for _, call := range Calls(fn) {
+		if match(CalleeName(call)) {
+			out = append(out, call)
+			continue
+		}
+		cc, ok := call.(*ssa.Call)
+		if !ok {
+			continue
+		}
+		h := Followable(cc, nil)
+		if h == nil || busy[h] || len(busy) > 3 {
+			continue
+		}
+		busy[h] = true
+		inner := mustCallSites(h, match, busy)
+		delete(busy, h)
+		if len(inner) == 0 {
+			continue
+		}
+		always := true
+		for _, r := range Returns(h) {
+			if PathAvoiding(h.Blocks[0], inner, r) {
+				always = false
+				break
+			}
+		}
+		if always {
+			out = append(out, call)
+		}
+	}
+	return out
+}
